@@ -235,7 +235,7 @@ RULES = [
 ]
 
 MANIFEST = {
-    "text": "Static decision of the gatekeeping structure: single construction site of GenericPurl (MIR aggregate search), no mutable exposure (HIR visibilities, signatures, trait impls), build() stage order by dominance with a post-hook write whitelist, guard/predicate summaries, plus the representation-invariant rules of the qualifier map and the checksum serialiser. Because every GenericPurl passes through build() after the hook, the invariants hold for every input, call sequence and PurlShape implementation.",
+    "text": "Static decision of the gatekeeping structure: single construction site of GenericPurl (MIR aggregate search), no mutable exposure (HIR visibilities, signatures, trait impls), build() stage order by dominance with a post-hook write whitelist, guard/predicate summaries, plus the representation-invariant rules of the qualifier map and the checksum serialiser. Because every GenericPurl passes through build() after the hook, the invariants hold for every input, call sequence and PurlShape implementation. The type predicate the built-in shapes validate with admits exactly [0-9A-Za-z.+-] (computed alphabet).",
     "note": "Trusted: rustc (privacy, borrowck, MIR), extractor, callee semantics of Vec::retain / binary search. Nothing is assumed about user finish hooks. Not decided: value-level behaviour of dependencies.",
     "technique": "who-may-construct / who-may-mutate rules over MIR aggregates and HIR signatures; dominance chain over build() stages; effect (write-set) analysis; boolean summaries",
     "design_ref": "DESIGN.md 5.4",
